@@ -135,7 +135,13 @@ def replay_case(arg):
                     df = ppm.sample(times_in, n_samples=ns, individual=who, seed=int(rng.integers(100)),
                                     include_regimen=rec['regimen'])
                 else:
-                    pam = chi.PAMPredictiveModel([ppm, chi.PosteriorPredictiveModel(pm, post)], weights=[2, 1])
+                    # two member models, or three (every other case): the blocks of sample IDs follow one another
+                    members = [ppm, chi.PosteriorPredictiveModel(pm, post)]
+                    if int(key, 16) % 2:
+                        members.append(chi.PosteriorPredictiveModel(pm, post))
+                        feats.append('three_member_models')
+                        cnt['feat_three_member_models'] = 1
+                    pam = chi.PAMPredictiveModel(members, weights=[2, 1, 1][:len(members)])
                     df = pam.sample(times_in, n_samples=ns, individual=who, seed=int(rng.integers(100)),
                                     include_regimen=rec['regimen'])
     except Exception as e:
